@@ -1076,6 +1076,9 @@ impl ByteCompiler<'_> {
         if generator {
             if self.is_async() {
                 self.bytecode.emit_async_generator();
+                // NOTE: The first resumption of an async generator pushes the received value
+                //       below the resume kind, unlike the first resumption of a generator.
+                self.bytecode.emit_pop();
             } else {
                 self.bytecode.emit_generator();
             }
